@@ -519,6 +519,16 @@ struct Dumper {
           });
         }
       });
+      // parameter names as written in the other declarations of this function (header prototype, in-class declaration):
+      // callers read those, the body uses the definition's
+      J.attributeArray("decl_params", [&] {
+        for (const FunctionDecl *R : F->redecls()) {
+          if (R == F) continue;
+          J.array([&] {
+            for (const ParmVarDecl *P : R->parameters()) J.value(P->getNameAsString());
+          });
+        }
+      });
       if (auto *C = dyn_cast<CXXConstructorDecl>(F)) {
         J.attribute("delegating", C->isDelegatingConstructor());
         J.attribute("copy_ctor", C->isCopyConstructor());
